@@ -1,6 +1,7 @@
 import GettsimVerif.Driver
 import GettsimVerif.Core.Lang
 import GettsimVerif.Core.Vectorize
+import GettsimVerif.Core.ArrSem
 /- JSON codec for the deep embedding (rules travel as JSON terms produced by tools/ruleir.py). -/
 open Lean GV GV.Lang
 
@@ -126,5 +127,44 @@ def opRunFun (j : Json) : Except String Json := do
   pure (.arr (rows.map fun args => match Lang.runFun f args with
     | .ok v => Json.mkObj [("ok", oVal v)]
     | .error e => Json.mkObj [("err", .str (toString e))]).toArray)
+
+def jAVal (j : Json) : Except String ArrSem.AVal :=
+  match j.getObjVal? "scalar", j.getObjVal? "col" with
+  | .ok v, _ => do pure (.scalar (← jVal v))
+  | _, .ok (.arr xs) => do
+    pure (.col (← xs.toList.mapM fun x => match x with
+      | .null => pure none
+      | v => do pure (some (← jVal v))))
+  | _, _ => throw "bad array value"
+
+def oAVal : ArrSem.AVal → Json
+  | .scalar v => Json.mkObj [("scalar", oVal v)]
+  | .col vs => Json.mkObj [("col", .arr (vs.map fun p => match p with
+      | some v => oVal v
+      | none => Json.null).toArray)]
+
+def tyOf : String → Except String VecTy.Ty
+  | "num" => pure .num | "bool" => pure .bool | "dyn" => pure .dyn
+  | s => throw s!"bad type {s}"
+
+/-- {"fun": F, "tys": [...]} → funOK -/
+def opFunOk (j : Json) : Except String Json := do
+  let f ← jFun (← field j "fun")
+  let tys ← (← jArr (← field j "tys")).mapM fun t => do tyOf (← jStr t)
+  pure (Json.mkObj [("ok", .bool (VecTy.funOK tys f))])
+
+/-- {"fun": F, "n": n, "args": [AVal], "transform": bool}: run (the rewritten) function on arrays -/
+def opRunArr (j : Json) : Except String Json := do
+  let f ← jFun (← field j "fun")
+  let n ← int j "n"
+  let args ← (← jArr (← field j "args")).mapM jAVal
+  let g ← if (← bool j "transform") then
+      match Vectorize.transform f with
+      | .ok g => pure g
+      | .error e => return Json.mkObj [("terr", .str (tErrStr e))]
+    else pure f
+  match ArrSem.runFunA g args n.toNat with
+  | .ok a => pure (Json.mkObj [("ok", oAVal a)])
+  | .error e => pure (Json.mkObj [("err", .str (toString e))])
 
 end GV.Drv
